@@ -1151,6 +1151,16 @@ def sf_isunbound(eng, e, st):
     return Val.of_bool(st.env.get("#undef:" + nm, z3.BoolVal(False)))
 
 
+def sf_isscalar(eng, e, st):
+    """isscalar(v): v is a number, not an array (decided from the shape of the symbolic value)."""
+    v = eng.ev(e.args[0], st)
+    if v.arr is not None and v.arr.ndim >= 1:
+        return Val.of_bool(False)
+    if v.num is not None or getattr(v, "lazy", None) is not None or (v.arr is not None and v.arr.ndim == 0):
+        return Val.of_bool(True)
+    raise Undecided("isscalar(): value of unknown kind")
+
+
 def sf_haskey(eng, e, st):
     d = eng.ev(e.args[0], st)
     if d.ref is None or not isinstance(e.args[1], ast.Constant):
@@ -1248,7 +1258,7 @@ SPECFUNCS = {
     "upd": sf_upd,
     "row": sf_row, "pt": sf_pt, "invt": _ptfun("InvT"), "fwdt": _ptfun("FwdT"), "cval": _ptfun("Cval", False), "feasx": sf_feasx,
     "pteq": sf_pteq, "ptat": sf_ptat,
-    "count_true": sf_count_true, "sum_of": sf_sum_of, "acqv": sf_acqv, "haskey": sf_haskey, "isunbound": sf_isunbound, "argsort_rank": sf_argsort_rank,
+    "count_true": sf_count_true, "sum_of": sf_sum_of, "acqv": sf_acqv, "haskey": sf_haskey, "isscalar": sf_isscalar, "isunbound": sf_isunbound, "argsort_rank": sf_argsort_rank,
     "old": sf_old, "implies": sf_implies, "iff": sf_iff, "forall": sf_forall, "exists": sf_exists, "rows": sf_rows,
     "cols": sf_cols, "ite": sf_ite, "isint": sf_isint, "isnone": sf_isnone, "pw": sf_pw, "ghost": sf_ghost,
     "ghostp": sf_ghostp, "same": sf_same, "truthy": sf_truthy, "isfinite": sf_isfinite, "isnan": sf_isnan, "num": sf_num,
